@@ -578,3 +578,15 @@ INIT_FILE = "__init__"
 
 def safe_lexical_test_with_module_constant(module: Node) -> bool:
     return module.endswith(INIT_FILE) or module.startswith(INIT_FILE + "_")
+
+
+def unsafe_case_folded_comparison(module: Node, other: Node) -> bool:
+    return module.lower() == other.lower()
+
+
+def unsafe_unbound_method(module: Node, other: Node) -> bool:
+    return str.startswith(module, other)
+
+
+def safe_sorted_case_insensitively(modules: list[Node]) -> list[str]:
+    return sorted(modules, key=lambda m: m.lower()) + [m for m in modules if str.startswith(m, "_")]
